@@ -261,7 +261,7 @@ func init() {
 		ID: "C07", Level: "exploration",
 		Rule: "every comparison operand pair within the type combinations the property lists (numbers incl. NaN/Infinity, string literals, flat node-set paths) x 6 operators, every and/or pair over operands of every type (with a right operand that raises a deliberate error iff it is evaluated), not()/boolean() nested twice, and the same comparisons inside predicates, evaluated on every document of a value universe (values {1,2,x,''} assigned exhaustively to text and attribute nodes) from every context node and compared with the reference value; non-trivial = a node-set operand has >= 2 nodes of which some satisfy and some do not satisfy the comparison (the existential rule is observable); distinct = distinct expressions with a non-trivial case",
 		Assumptions:    []string{"hand-written reference evaluator", "lawful NodeNavigator", "bounded trees and value alphabet"},
-		Budget:         budget(90*time.Second, 25*time.Minute),
+		Budget:         budget(200*time.Second, 25*time.Minute),
 		MinRefOutcomes: 2,
 		Spaces:         c07Spaces,
 	})
